@@ -560,7 +560,9 @@ def wire_family(kinds_fixed, kinds_random, rq, rt, exports, sub=None):
                 exports=exports, opts=opts, tag="wire-" + (sub or "none"))
 
 
-WIRE_ASSUME = ["byte stream = in-process pipe with scripted partial reads / partial writes / Pending results",
+WIRE_ASSUME = ["byte stream = in-process pipe with scripted partial reads / partial writes / Pending results; a quarter of the random round trips "
+               "go through the shipped socket transports instead (serde_transport::tcp / unix: listen, connect, accept on the loopback "
+               "interface / a socket file), where fragmentation is the kernel's",
                "message values are the concretisation of Wire.tla's length classes (ids 0 / 2^32 / 2^64-1, empty / unicode / 70 kB bodies, "
                "all io::ErrorKind variants by name); arbitrary byte-exact fidelity is the serializers' job and is sampled",
                "frames above LengthDelimitedCodec's 8 MiB default are out of scope"]
@@ -572,7 +574,7 @@ PROPS["C15"] = dict(
           "both codecs, and hand-built JSON omitting optional fields; non-trivial = at least one message written; distinct by cfg"),
     assumptions=WIRE_ASSUME,
     models=[wire_model("framing-A", "LensA"), wire_model("framing-C", "LensC"), wire_model("framing-iobuf-B", "LensB", IoBuf=True)],
-    families=[wire_family({"kinds", "omit", "mem"}, "rt", 1500, 30000,
+    families=[wire_family({"kinds", "omit", "mem"}, "rt,rt,rt,sock", 1500, 30000,
                           [wire_export("A", "LensA"), wire_export("B", "LensB"), wire_export("C", "LensC"), wire_export("iobuf-B", "LensB", IoBuf=True)])],
     relevant=lambda e: e.get("cfg", {}).get("kind") in ("kinds", "omit") or len(e.get("cfg", {}).get("msgs", [])) > 0,
 )
@@ -600,7 +602,7 @@ PROPS["C07"] = dict(
                                "chain through handler contexts is not executed by this check",
                                "virtual clock via hook H4: encode and decode times are exact"],
     models=[wire_model("framing-B", "LensB")],
-    families=[wire_family({"omit", "transit", "mem"}, "rt", 1200, 20000, [wire_export("B", "LensB")])],
+    families=[wire_family({"omit", "transit", "mem"}, "rt,rt,rt,sock", 1200, 20000, [wire_export("B", "LensB")])],
     relevant=lambda e: e.get("cfg", {}).get("kind") == "omit" or any(m.startswith("req") for m in e.get("cfg", {}).get("msgs", [])),
 )
 
